@@ -78,6 +78,36 @@ CLAIMED.update({
               "statistic moved are not observable and are counted. Trusted: TLC, the recorder (instance-level wrappers)."),
         technique="TLA+ spec + TLC exhaustive; code->spec trace validation of real fits",
         design_ref="4/C05, 3.3"),
+    "C06": dict(
+        engine="Masking", category="model_checking",
+        text=("TLC checks NonInterference, CountsObserved and NeverNonFinite of the extended-real algebra of masked tensors "
+              "(specs/Masking.tla: filled, weighted_value, wsum, weighted products, Gaussian attachment pipeline) for every mask, "
+              "every pair of twins agreeing on the observed entries and every sentinel (NaN, inf, huge) at masked entries; every "
+              "3-entry vector (all masks, sentinels at masked entries, bool / int / float weights) is run through the real "
+              "WeightedTensor operations and compared by TLC with the algebra (MaskingTrace.tla); twin-dataset scenarios on real "
+              "models (masked values and padded ages overwritten, extra padded visits, 25 % missing entries incl. partially "
+              "observed visits) must give equal attachment terms, sufficient statistics, counts, initial and fitted parameters "
+              "(memory phase included), trajectories at real visits and personalizations, and a noise level equal to the RMSE "
+              "over observed entries."),
+        note=("Bit-identical when padding is unchanged; relative 1e-5 (personalization 1e-2 absolute) when the amount of padding "
+              "differs. Scenario space sampled (fills x padding x kinds); algebra exhaustive for 2 entries."),
+        technique="TLA+ algebra + TLC exhaustive; code->spec conformance of vector operations; twin-dataset scenario replay",
+        design_ref="4/C06"),
+    "C07": dict(
+        engine="Cohort", category="model_checking",
+        text=("TLC checks OwnOnly, OwnOnlyWithDraws, Equivariant and OutputOrderFollowsInput of specs/Cohort.tla for every cohort "
+              "of 2-3 individuals (identifiers whose string order differs from numeric order, data variants incl. one with a "
+              "non-finite attachment) and every scenario (modify another individual, every permutation, every single individual, "
+              "2-3 workers); TLC-enumerated scenarios are executed on a real fitted model (per-individual terms at fixed latent "
+              "values, totals, a seeded mean_posterior chain, scipy_minimize with n_jobs 1-3) and TLC checks the recorded "
+              "relations (CohortTrace.tla): untouched individuals bit-identical when another is modified, per-identifier equality "
+              "under permutation / alone / other worker counts, totals = sums, outputs keyed by input identifiers in input order; "
+              "plus per-individual decision locality of the individual sampler (SamplerTrace.tla)."),
+        note=("Optimisation results under permutation / alone / other worker counts are compared with tolerance (tau 0.1, others "
+              "0.05): starting points are position-indexed draws, and worker processes differ in the last float bits (measured "
+              "1e-3). Scenario space sampled with stratification."),
+        technique="TLA+ spec + TLC exhaustive; spec-enumerated scenarios executed on the code; code->spec conformance",
+        design_ref="4/C07"),
     "C11": dict(
         engine="Saem", category="model_checking",
         text=("TLC checks LogExactlyWhenDue, LogReadOnly, AcceptedCompletes and Termination of specs/Saem.tla over every "
@@ -153,6 +183,8 @@ CLAIMED.update({
 })
 
 ENGINES = {
+    "Masking": dict(path="specs/Masking.tla", kind="TLA+ extended-real algebra of masked tensors (+ MaskingTrace.tla)"),
+    "Cohort": dict(path="specs/Cohort.tla", kind="TLA+ scenario table of cohort transformations (+ CohortTrace.tla)"),
     "MStep": dict(path="specs/MStep.tla", kind="TLA+ closed forms of the maximization rules (+ MStepTrace.tla)"),
     "IndParams": dict(path="specs/IndParams.tla", kind="TLA+ case table of individual-parameter conversions (+ IndParamsTrace.tla)"),
     "ModelLifecycle": dict(path="specs/ModelLifecycle.tla", kind="TLA+ state machine of API call histories on a model object"),
